@@ -2,7 +2,7 @@
 implementation-level oracle used to search for a concrete failing input."""
 import re
 
-from . import gen_kzg, gen_pc
+from . import gen_kzg, gen_pc, gen_c16
 from .oracles import pc_honest, pc_mutations
 
 
@@ -39,6 +39,35 @@ def oracle_c01_kzg(case, lo):
     return fails
 
 
+def lib_toks(lo, name):
+    v = lo.get(name)
+    return v[1] if v else None
+
+
+def oracle_c16(case, lo):
+    """the identities of the property evaluated on library outputs only"""
+    fails = []
+    if case.kind != "c16":
+        return fails
+    sub = case.fields["sub"][0]
+    if sub == "lcop":
+        if lib_toks(lo, "value") != lib_toks(lo, "value_by_ops"):
+            fails.append("LinearCombination operators: value of the result %s differs from the same arithmetic on values %s (ops %s)"
+                         % (lib_toks(lo, "value"), lib_toks(lo, "value_by_ops"), ",".join(case.meta.get("shapes", []))))
+    elif sub == "eqs":
+        if lib_s(lo, "eqs") == "ok" and lib_s(lo, "eq_spec") != "holds":
+            fails.append("evaluate_query_set: a queried (label, point) is missing or mapped to a wrong value")
+        if lib_s(lo, "eqs") != "ok":
+            fails.append("evaluate_query_set aborted on a query set over known labels: %s" % lib_s(lo, "eqs"))
+    elif sub == "scp":
+        k = len(case.fields["chs"])
+        if lib_s(lo, "ncoeffs") != str(2 ** k):
+            fails.append("SuccinctCheckPolynomial::compute_coeffs returned %s coefficients for %d challenges" % (lib_s(lo, "ncoeffs"), k))
+        if lib_toks(lo, "evalz") != lib_toks(lo, "horner"):
+            fails.append("SuccinctCheckPolynomial::evaluate differs from Horner evaluation of compute_coeffs (k=%d)" % k)
+    return fails
+
+
 PROPS = {
     "C01": {
         "props_file": "props/C01.v",
@@ -46,5 +75,12 @@ PROPS = {
         "filter": None,
         "oracles": [oracle_c01_kzg, pc_honest, lambda c, lo: pc_mutations(c, lo, ("vperm",))],
         "title": "Completeness",
+    },
+    "C16": {
+        "props_file": "props/C16.v",
+        "flows": [(gen_c16.gen, "c16", 300, 6000)],
+        "filter": None,
+        "oracles": [oracle_c16],
+        "title": "Public algebraic helpers",
     },
 }
